@@ -164,9 +164,9 @@ def nt_reent(feat, script, canon):
 
 register(
     "C01",
-    lean_modules=["EventppVerif.Properties.C01"],
+    lean_modules=["EventppVerif.Properties.C01", "EventppVerif.Properties.C02bridge"],
     theorems=[],
-    fragments=[],
+    fragments=["ClFrag"],
     suites=[cl_suite("flat", 300, 8000, rule="random flat histories (no callback behaviour) over 1-3 lists, <=40 (quick) / <=120 (thorough) operations, "
                      "handles 60% issued / stale / never issued; distinct = distinct canonical output; non-trivial = at least one inert (false) result, "
                      "at least one insert, final list non-empty", nontrivial=nt_flat),
@@ -177,9 +177,9 @@ register(
 
 register(
     "C02",
-    lean_modules=["EventppVerif.Properties.C02"],
-    theorems=["Evp.sim_step", "Evp.sim_runN", "Evp.minv_runN"],
-    fragments=[],
+    lean_modules=["EventppVerif.Properties.C02", "EventppVerif.Properties.C02bridge"],
+    theorems=["Evp.sim_step", "Evp.sim_runN", "Evp.minv_runN", "Evp.PL.bridge_doFreeNode", "Evp.PL.bridge_doAppend", "Evp.PL.bridge_doInsert"],
+    fragments=["ClFrag"],
     suites=[cl_suite("reent", 400, 12000, rule="random re-entrant programs: callbacks remove/insert near themselves (self, self+-1, self+-2), append, prepend, "
                      "re-invoke and enumerate to depth 3, through live / removed / never-issued handles; single, std::mutex and (thorough) SpinLock policies; "
                      "distinct = distinct canonical output; non-trivial = an inert (false) result produced inside a running invocation and >=3 calls",
